@@ -258,7 +258,7 @@ Proof.
            ++ apply in_or_app. right. apply in_or_app. right. apply in_flat_map. exists k1. auto.
            ++ apply in_or_app. right. apply in_or_app. right. apply in_flat_map. exists k2. auto.
            ++ destruct (proj1 (TR k1 H1) x Hx) as (_ & L1 & _).
-              destruct (proj1 (TR k2 H2) y Hy) as (_ & L2 & _). lia.
+              destruct (proj1 (TR k2 H2) y Hy) as (_ & L2 & _). cbv beta in NE. lia.
       * intros x y Hx Hy. apply DIFF.
         -- apply in_or_app. right. apply in_or_app. left. exact Hx.
         -- apply in_or_app. right. apply in_or_app. right. exact Hy.
